@@ -11,7 +11,7 @@ LEXER = 'the lexer is represented by its contract inside the driver proofs (defa
 R13 = 'semantic values are ghost identifiers (R13): std::variant/optional/tuple, the functors and reduce_value_impl are outside the verified text'
 
 # obligations that belong to particular properties only (not counted, pass or fail, for the others)
-OWNED = {r'stack/capacity:': ['C06', 'C12'], r'stack/capacity-shape:': ['C06', 'C12']}
+OWNED = {r'stack/capacity:': ['C06', 'C12'], r'stack/capacity-shape:': ['C06', 'C12', 'C07']}
 
 L_KNUTH = "Knuth's LR(1) theorem (closed states + goto kernels + table read off the items + driver executing the table => accepts exactly L(G)) is not mechanised; closure, transitions, analyze_states and the FIRST/nullable recursion are NOT under contract (solver cost / time), so a change confined to them is not seen by this check"
 GLUE = 'the pack-expansion glue that fills grammar_info from the DSL objects (analyze_terms/nterms/rule, create_lexer, init_reductors: R18) is outside the extraction'
